@@ -170,6 +170,13 @@ def run(tier, seed):
                      "the correspondence harness (vh codec), the generators and this script are unverified"]
     ok_build = c.extract_consts() and c.lake_build(["shuttle_model", "ShuttleProofs.C16", "ShuttleProofs.Gen.C16"])
     ok_audit = ok_build and c.audit("ShuttleProofs.C16Audit")
+    if ok_build and tier == "thorough":
+        for mod in ("ShuttleProofs.C16", "ShuttleProofs.Gen.C16"):
+            rc_l, out_l, err_l, _ = sh(["lake", "env", "leanchecker", mod], cwd=LEAN, timeout=3000)
+            c.cov.setdefault("leanchecker", {})[mod] = "ok" if rc_l == 0 else f"rc={rc_l} {(out_l + err_l)[-200:]}"
+            if rc_l != 0:
+                ok_audit = False
+                c.audit_error = f"leanchecker rejects {mod}"
     hits = c.forbidden_scan(["ShuttleModel/Serialize.lean", "ShuttleModel/Bits.lean", "ShuttleModel/Varint.lean",
                              "ShuttleProofs/C16.lean", "ShuttleProofs/Gen/C16.lean"] +
                             ["ShuttleProofs/Lemmas/" + f for f in os.listdir(os.path.join(LEAN, "ShuttleProofs/Lemmas")) if f.startswith("Serialize")])
